@@ -39,7 +39,7 @@ from vp.gen.c01_ref import DECORATOR_LABELS, UNKNOWN, Binder, doc_texts
 ID = "C01"
 LEVEL = "exploration"
 RULE = (
-    "Hypothesis-generated structural module models (nested defs/classes, plain/annotated/multi-target assignments, every import form, "
+    "Hypothesis-generated structural module models (three layouts: module m, module p.m, package p/__init__; nested defs/classes, plain/annotated/multi-target assignments, every import form, "
     "__all__ forms, if/elif/else, try/except/else/finally, for, with, if TYPE_CHECKING blocks, __init__ instance attributes, docstring "
     "literals at legal and illegal positions, decorators from the label tables through every import form, unsupported binders; names from a "
     "pool of 10 so duplicates are the norm) rendered to text; each text judged against a reference binder over ast.parse. "
@@ -59,8 +59,9 @@ ASSUMPTIONS = [
     "so that their resolution is decided by Python scoping without ambiguity",
     "`if TYPE_CHECKING` / `if typing.TYPE_CHECKING` is generated only directly in module/class bodies (nested placements are left open by the statement)",
     "an attribute without own docstring that re-binds an earlier binding of the same name may carry that earlier docstring (documented forwarding) or none",
-    "relative imports are generated only for a module p.m inside a package p (level 1); no import targets the module itself",
-    "with griffe.load the built-in dataclasses extension may add a synthesized __init__ (lineno None) to dataclass-decorated classes: ignored",
+    "relative imports (level 1) are generated only for a module p.m inside a package p or for the package's own __init__ module; `from . import name` inside "
+    "an __init__ module may or may not yield a member (the name is the submodule itself); no import targets the module itself",
+    "with griffe.load the built-in dataclasses extension may add a synthesized __init__ (lineno 0) to dataclass-decorated classes: ignored",
     "docstring text is compared with inspect.cleandoc of the literal, with or without the literal's trailing whitespace",
     "domain (ii) checks totality and parent/name consistency only",
 ]
@@ -114,7 +115,7 @@ def _recorder_cls():
 
 # ------------------------------------------------------------------------------------------- running Griffe
 def modname_of(case) -> str:
-    return "p.m" if case.get("layout") == "sub" else "m"
+    return {"sub": "p.m", "init": "p"}.get(case.get("layout"), "m")
 
 
 def run_griffe(case, text: str):
@@ -122,7 +123,9 @@ def run_griffe(case, text: str):
     import griffe
 
     rec = _recorder_cls()()
-    sub = case.get("layout") == "sub"
+    layout = case.get("layout", "top")
+    sub = layout == "sub"
+    init = layout == "init"
     if case.get("entry") == "load":
         base = os.environ.get("VERIF_TMP") or ("/dev/shm" if os.access("/dev/shm", os.W_OK) else None)
         tmp = Path(tempfile.mkdtemp(prefix="verif-C01-load-", dir=base))
@@ -131,13 +134,16 @@ def run_griffe(case, text: str):
                 (tmp / "p").mkdir()
                 (tmp / "p" / "__init__.py").write_text("")
                 (tmp / "p" / "m.py").write_text(text)
+            elif init:
+                (tmp / "p").mkdir()
+                (tmp / "p" / "__init__.py").write_text(text)
             else:
                 (tmp / "m.py").write_text(text)
             exts = griffe.load_extensions(rec)
             top = call(
                 "total",
                 griffe.load,
-                "p" if sub else "m",
+                "p" if (sub or init) else "m",
                 search_paths=[str(tmp)],
                 allow_inspection=False,
                 extensions=exts,
@@ -154,10 +160,12 @@ def run_griffe(case, text: str):
     if sub:
         fp = root / "p" / "m.py"
         parent = griffe.Module("p", filepath=root / "p" / "__init__.py")
+    elif init:
+        fp = root / "p" / "__init__.py"
     else:
         fp = root / "m.py"
     lc[fp] = text.splitlines(keepends=False)
-    mod = call("total", griffe.visit, "m", filepath=fp, code=text, extensions=exts, parent=parent, lines_collection=lc, what="griffe.visit")
+    mod = call("total", griffe.visit, "p" if init else "m", filepath=fp, code=text, extensions=exts, parent=parent, lines_collection=lc, what="griffe.visit")
     return mod, rec.events
 
 
@@ -584,7 +592,7 @@ def check_case(case) -> list[Fail]:
             return c01_wide.check_text(case, case["text"], _LAST)
     else:
         text = c01_mod.render(case)
-    binder = Binder(text, modname_of(case))
+    binder = Binder(text, modname_of(case), is_init=case.get("layout") == "init")
     nontrivial, classes = features(case, binder, text)
     _LAST["case"] = case
     _LAST["info"] = (digest(text) if nontrivial else None, classes, {"entry": case.get("entry", "visit"), "module": modname_of(case), "source": text} if nontrivial and len(text) < 1500 else None)
@@ -607,13 +615,25 @@ def strategy(ctx):
     from vp.gen import c01_wide
 
     mods = c01_mod.modules(max_depth=ctx.scale(3, 3))
-    return st.one_of(mods, mods, mods, mods, mods, c01_wide.programs())
+    return c01_mod.weighted((mods, 5), (c01_wide.programs(), 1))
 
 
 def run_shard(ctx) -> None:
-    n = ctx.scale(2500, 45000)
-    ctx.run_hypothesis(strategy(ctx), check_case, max_examples=n, describe=describe)
-    if not ctx.quick:
-        from vp.gen import c01_wide
+    strat = strategy(ctx)
+    if ctx.quick:
+        # ~15-20 ms per case single-process (generation included): 2000 cases ~ 35 s per shard on an idle core.
+        # Chunked so that an exhausted budget (busy machine) ends the search instead of generating unused examples.
+        for i in range(5):
+            if ctx.out_of_budget():
+                break
+            ctx.run_hypothesis(strat, check_case, max_examples=400, describe=describe, salt="" if i == 0 else f"q{i}")
+        return
+    from vp.gen import c01_wide
 
-        c01_wide.run_pysource(ctx, check_case, describe)
+    c01_wide.run_pysource(ctx, check_case, describe)
+    # chunks, so that an exhausted budget ends the search (Hypothesis would otherwise keep generating unused examples);
+    # the first chunk uses the salt that `strategy` announces to the shrinker
+    for i in range(6):
+        if ctx.out_of_budget():
+            break
+        ctx.run_hypothesis(strat, check_case, max_examples=8000, describe=describe, salt="" if i == 0 else f"chunk{i}")
